@@ -107,6 +107,7 @@ class Exploration:
     cap_note: str = ""
     refusal_kinds: Counter = field(default_factory=Counter)
     samples: list = field(default_factory=list)
+    infos: list = field(default_factory=list)  # side observations of monitors: fingerprints starting with "@"
     wall: float = 0.0
 
 
@@ -157,6 +158,9 @@ def explore(
                         ex.refusal_kinds[exname] += 1
                     for fp, desc in viols:
                         hist_ops = [alphabet[i] for i in hist_idx]
+                        if fp.startswith("@"):
+                            ex.infos.append((hist_idx, oi, fp, desc))
+                            continue
                         ex.violations.append(Violation(
                             fp, f"{desc} | world={w.name} after {len(hist_ops)} ops, op={alphabet[oi]}",
                             {"engine": engine_tag, "world": world_spec, "history": hist_ops, "op": alphabet[oi]},
@@ -198,7 +202,8 @@ def _tup(o):
     return tuple(o)
 
 
-def run_plan(res, plan, monitors, *, with_calls=False, key_calls=False, pre_hook=None, max_transitions=None, engine_tag="seqx"):
+def run_plan(res, plan, monitors, *, with_calls=False, key_calls=False, pre_hook=None, max_transitions=None, engine_tag="seqx",
+             infos=None):
     """Run a list of (world_spec, alphabet, depth) explorations and accumulate coverage into `res`."""
     cov = dict(states=0, transitions=0, traces_validated_against_impl=0, refused=0, worlds=[], samples=[], exhaustive=True)
     for spec, alpha, depth in plan:
@@ -212,6 +217,8 @@ def run_plan(res, plan, monitors, *, with_calls=False, key_calls=False, pre_hook
                                   transitions=ex.transitions, refused=ex.refused, layers=ex.layers, wall=round(ex.wall, 1),
                                   cap=ex.cap_note))
         cov["samples"] += ex.samples
+        if infos is not None:
+            infos.append((spec, alpha, ex.infos))
         res.violations += ex.violations
         for k, v in ex.activations.items():
             res.activations[k] = res.activations.get(k, 0) + v
